@@ -35,6 +35,11 @@ def run(ctx, rep):
     r3(prog, ev, rep)
     r4(ctx, prog, ev, rep)
     r5(prog, ev, rep)
+    # the three entry points hand the evaluator's list on by order- and cardinality-preserving maps only
+    from vflib.report import Shared
+    from rules import c12
+    c12.prepare(prog, ev)
+    c12.r1(prog, ev, Shared(rep, {"C12-R1": "C02-R7"}, lender="C12", only_keys=["js_path_vals", "js_path_path", "QueryRef::"]))
     from rules import c11
     c11.shared_walk_rule(prog, ev, rep, "C02-R6",
                          "array elements selected by a slice appear in the RFC's index order (ascending for positive, descending for negative "
